@@ -378,6 +378,10 @@ class ConcatenatedDrillhole(ConcatenatedObject, Drillhole):
         """
         Reformat the survey values as structured array with the right shape.
         """
+        if isinstance(values, list):
+            # rows of (depth, azimuth, dip[, info]), as for any drillhole
+            values = np.vstack(values)
+
         if isinstance(values, np.ndarray):
             values = values.T.tolist()
 
